@@ -167,11 +167,20 @@ def c27(c):
     c.absorb(res)
     c.log('replayed %d rows on two real nodes (%d runs): %d agree, %d differ; %d rows conform to the model' % (
         res['executed'], res['extra'].get('runs', 0), res['counters'].get('agree', 0), res['counters'].get('differ', 0), res['completed']))
+    # second part: the label filter over the whole filter grammar, and the remote unsubscribe of a subscription in progress
+    r2 = c.tlc_exhaustive('Cluster', 'ControlX', 'controlx_quick.cfg' if quick else 'controlx_thorough.cfg', workers=4, dump=True, timeout=3000)
+    xrows = [w['row'] for w in c.dump_states(r2)]
+    xrows.sort(key=lambda w: (w['kind'], len(str(w.get('f', ''))), str(w.get('f', '')), w.get('op', ''), str(w.get('phase', '')), str(w.get('emptych', ''))))
+    resx = c.harness(binp, 'c27x', {'rows': xrows, 'workers': 4}, timeout=3000)
+    c.absorb(resx)
+    c.log('ControlX: %d rows (%d filter trees x 4 operations, 8 phase rows), %.0fs; replayed: filters %d agree / %d differ, phases %d agree / %d differ; %d rows conform' % (
+        len(xrows), sum(1 for w in xrows if w['kind'] == 'filter') // 4, r2['wall_s'], resx['counters'].get('filter_agree', 0), resx['counters'].get('filter_differ', 0),
+        resx['counters'].get('phase_agree', 0), resx['counters'].get('phase_differ', 0), resx['completed']))
     if res['counters'].get('culprit_mismatch'):
         c.notes.append('attribution differs from the model in %d rows, e.g. %s' % (res['counters']['culprit_mismatch'], res['extra'].get('culprit_mismatch_example')))
-    c.cov['traces_validated_against_impl'] = res['completed']
-    c.cov['evaluations'] = res['extra'].get('runs', 0)
-    c.cov['distinct_nontrivial'] = res['nontrivial']
+    c.cov['traces_validated_against_impl'] = res['completed'] + resx['completed']
+    c.cov['evaluations'] = res['extra'].get('runs', 0) + 2 * resx['executed']
+    c.cov['distinct_nontrivial'] = res['nontrivial'] + resx['nontrivial']
     c.cov['samples'] = res['samples'] or []
     c.cov['exhaustive'] = True
     c.cov['rule'] = ('rows (operation, option set) enumerated by TLC from Control.tla (%s), each executed on two real nodes with the call issued on the '
